@@ -1,6 +1,6 @@
 (* C12 -- Strict mode never silently accepts malformed programs (clauses about WHERE the
    first error is reported).  Property theorems only. *)
-Require Import Base Token Tree Parser ParserSpec CausalityProofs.
+Require Import Base Token Lexer Tree Parser ParserSpec Grammar GrammarLax CausalityProofs SoundnessProofs.
 Require Import Gen.Tables.
 
 (* an error located at a token of [toks] whose index is at least [k], or at the repeated
@@ -25,3 +25,31 @@ Theorem C12_error_not_early : forall cfg toks1 toks2 k r1 r2,
 Proof. exact error_not_early. Qed.
 Print Assumptions C12_error_not_early.
 
+(* Parser SOUNDNESS: whatever strict mode accepts without reporting an error is a program of
+   the relaxed grammar of GrammarLax.v - the ECMAScript grammar of the subset plus six
+   explicit, recorded relaxations (non-simple assignment targets, non-identifier member
+   names, parameters and object keys, declarations as single statements, postfix
+   expressions as callees).  So a corrupted text that is not in that grammar is never
+   accepted silently.  (The token list has no end-of-input token before its last one.) *)
+Theorem C12_sound : forall toks r,
+  t_type (last toks zero_token) = T_EOF ->
+  Forall (fun t => t_type t <> T_EOF) (removelast toks) ->
+  parse_tokens cfg_default toks = Some r -> pr_errors r = [] ->
+  m_programL (pr_program r) toks = true /\ wf_programL (pr_program r) = true.
+Proof. exact parse_sound. Qed.
+Print Assumptions C12_sound.
+
+(* on lexer output both side conditions hold (C10): soundness from the source text *)
+Theorem C12_sound_lexed : forall src toks r,
+  tokenize src = Some toks ->
+  parse_tokens cfg_default toks = Some r -> pr_errors r = [] ->
+  m_programL (pr_program r) toks = true /\ wf_programL (pr_program r) = true.
+Proof. exact parse_sound_lexed. Qed.
+Print Assumptions C12_sound_lexed.
+
+(* the relaxed grammar contains the ECMAScript grammar of the subset *)
+Theorem C12_lax_contains_strict : forall p toks,
+  m_program p toks = true -> wf_program p = true ->
+  m_programL p toks = true /\ wf_programL p = true.
+Proof. exact strict_in_lax. Qed.
+Print Assumptions C12_lax_contains_strict.
